@@ -45,10 +45,11 @@ def rand_init(r, scale=1):
 def build(r, law, learner):
     """returns (list of cases, relation name, extra)"""
     n = r.randint(2, 7)
-    es = gen.events(r, n, dup=0.0)
+    es = gen.events(r, n, dup=0.0, medium=(r.random() < 0.3))
     if learner != 'dict_ndl':
         es = gen.file_norm(es)
-    base = dict(gen.params(r), events=es, policy='error', n_jobs=r.choice([1, 2, 3]),
+    # no event repeats a name, so all three duplicate policies denote the same learner
+    base = dict(gen.params(r), events=es, policy=r.choice(['error', 'dedup', 'keep']), n_jobs=r.choice([1, 2, 3]),
                 per_job=r.choice([1, 2, 10]), per_file=r.choice([2, 3, 10000000]))
     if law == 'drop_other_outcome':
         victims = sorted({o for _, os_ in es for o in os_})
